@@ -10,7 +10,7 @@ use rip_kernel::{Event, StreamKind};
 
 pub struct EventLog {
     path: PathBuf,
-    writer: Mutex<BufWriter<File>>,
+    writer: Mutex<File>,
 }
 
 impl EventLog {
@@ -22,7 +22,7 @@ impl EventLog {
         let file = OpenOptions::new().create(true).append(true).open(&path)?;
         Ok(Self {
             path,
-            writer: Mutex::new(BufWriter::new(file)),
+            writer: Mutex::new(file),
         })
     }
 
@@ -36,9 +36,10 @@ impl EventLog {
         let mut writer = self.writer.lock().expect("event log mutex");
         let mut line = serde_json::to_string(event)
             .map_err(|err| io::Error::new(io::ErrorKind::InvalidData, err))?;
-        // One buffer, one write: a frame larger than the writer's buffer bypasses it, and a
-        // separate newline write would leave a window in which a crash tears the line (the next
-        // frame is then fused onto it and the log never parses again).
+        // One buffer, one write: a separate newline write would leave a window in which a crash
+        // tears the line (the next frame is then fused onto it and the log never parses again).
+        // The file is written directly: a buffering writer keeps a frame whose flush failed and
+        // writes it together with the next one, under the same seq.
         line.push('\n');
         #[cfg(rip_verif)]
         rip_kernel::verif::point("log.write_body");
@@ -47,7 +48,6 @@ impl EventLog {
         writer.write_all(line.as_bytes())?;
         #[cfg(rip_verif)]
         rip_kernel::verif::point("log.flush");
-        writer.flush()?;
         #[cfg(rip_verif)]
         rip_kernel::verif::point("log.appended");
         Ok(())
